@@ -89,7 +89,7 @@ def standard_flow(C, tier, replay=None):
         par = C.get("driver_parallel", 1)
         if isinstance(par, dict):
             par = par.get(d, 1)
-        t_, d_ = vlib.run_driver_parallel(bins[d], ps, "%s-%s" % (prop, d), k=par, extra_args=C.get("driver_args", ()),
+        t_, d_ = vlib.run_driver_parallel(bins[d], ps, "%s-%s" % (prop, d), k=par, chunk=C.get("driver_chunk", 0), extra_args=C.get("driver_args", ()),
                                           timeout=C.get("driver_timeout", 1500), env=C.get("driver_env"))
         traces.update(t_)
         deaths.extend(d_)
